@@ -17,7 +17,24 @@ TARGET = "C04"
 
 TY = {"str": ".str", "int": ".int", "bool": ".bool", "float": ".float", "dict": ".dict",
       "str_to_bool": ".strToBool", "optional_int": ".optInt", "memory_to_bytes": ".memory",
-      "str_to_kubernetes_qos": ".qos"}
+      "str_to_kubernetes_qos": ".qos", "to_bool": ".toBool"}
+
+# The local converter `to_bool` of convert_component_types is modelled by `Ty.toBool` (strings through
+# str_to_bool, anything else through bool()).  The extractor accepts the name only while the function's body
+# is literally this one; any other body makes the constant extraction fail (=> broken build => search).
+TO_BOOL_BODY = ("If(test=Call(func=Name(id='isinstance', ctx=Load()), args=[Name(id='value', ctx=Load()), "
+                "Name(id='string_types', ctx=Load())], keywords=[]), body=[Return(value=Call(func=Name(id='str_to_bool', "
+                "ctx=Load()), args=[Name(id='value', ctx=Load())], keywords=[]))], orelse=[])|"
+                "Return(value=Call(func=Name(id='bool', ctx=Load()), args=[Name(id='value', ctx=Load())], keywords=[]))")
+
+
+def _check_local_converters(conv_fn):
+    for node in ast.walk(conv_fn):
+        if isinstance(node, ast.FunctionDef) and node.name == "to_bool":
+            body = [st for st in node.body if not (isinstance(st, ast.Expr) and isinstance(st.value, ast.Constant))]
+            got = "|".join(ast.dump(st) for st in body)
+            if got != TO_BOOL_BODY:
+                raise ValueError("local converter to_bool has an unexpected body: %s" % got[:300])
 
 
 def _s(x):
@@ -89,6 +106,7 @@ def generate():
             table = node.value
     if table is None:
         raise KeyError("expected_types")
+    _check_local_converters(conv)
     qos = None
     for node in ast.walk(tree):
         if isinstance(node, ast.Assign) and isinstance(node.targets[0], ast.Tuple) and \
